@@ -35,9 +35,48 @@ def contexts(name: str, ca: str | None = 'ca.pem'):
 
 
 # ------------------------------------------------------------------------------------------------
+_AUDIT = {'installed': False, 'active': False, 'events': []}
+OFFSITE = '10.255.255.1'
+
+
+def _install_audit():
+    """process-wide audit hook (cannot be removed): while a loop-back run is active every attempt to open a REAL connection is recorded - the
+    loop-back transport has no sockets, so any such attempt by-passes the SOAP clients (and their TLS context).  Attempts towards the off-site
+    address the harness plants are refused at once (no waiting for a connect timeout)."""
+    if _AUDIT['installed']:
+        return
+    _AUDIT['installed'] = True
+
+    def hook(event, args):
+        if not _AUDIT['active']:
+            return
+        if event == 'socket.connect':
+            _AUDIT['events'].append(('socket.connect', repr(args[1])[:80]))
+            if OFFSITE in repr(args[1]):
+                raise ConnectionRefusedError('vf: off-site address')
+        elif event == 'urllib.Request':
+            _AUDIT['events'].append(('urllib.Request', str(args[0])[:120]))
+    sys.addaudithook(hook)
+
+
 def w_loopback(ctx: core.Ctx, arg):
     provider_tls, consumer_mode, async_mgr, alt_host = arg['provider_tls'], arg['consumer'], arg['async_mgr'], arg['alt_host']
     label = dict(arg)
+    _install_audit()
+    _AUDIT['events'].clear()
+    _AUDIT['active'] = True
+    try:
+        _w_loopback(ctx, arg, provider_tls, consumer_mode, async_mgr, alt_host, label)
+    finally:
+        _AUDIT['active'] = False
+    ctx.count('loopback.audit_runs')
+    if _AUDIT['events']:
+        ev = sorted(set(_AUDIT['events']))
+        ctx.witness('connect.unmanaged.' + ev[0][0], 'a connection was opened outside the SOAP clients (no TLS client context): ' + repr(ev[:3]),
+                    {**label, 'events': ev[:6]})
+
+
+def _w_loopback(ctx, arg, provider_tls, consumer_mode, async_mgr, alt_host, label):
     pcont = contexts('provider') if provider_tls else None
     ccont = contexts('consumer') if consumer_mode != 'none' else None
     import socket
@@ -65,6 +104,18 @@ def w_loopback(ctx: core.Ctx, arg):
         scheme = 'https' if ccont is not None and (consumer_mode == 'enforced' or provider_tls) else 'http'
         server = net.new_server(scheme=scheme)
         address = world.provider_address.replace('vfhost.example', '127.0.0.1')
+        if arg.get('offsite_wsdl'):
+            # a peer may advertise its WSDL at another host:port (valid DPWS): whatever the consumer does with that location, it opens no
+            # connection outside its SOAP clients
+            rx_loc = re.compile(rb'(<[A-Za-z0-9]*:?Location>)https?://[^/<]+')
+
+            def rewrite(entry, _scheme=arg['offsite_wsdl']):
+                if entry.response and b'wsdl' in entry.response and b'Location>' in entry.response:
+                    new, n = rx_loc.subn(rb'\1' + f'{_scheme}://{OFFSITE}:81'.encode(), entry.response)
+                    if n:
+                        entry.response = new
+                        ctx.count('loopback.offsite_wsdl_locations_planted', n)
+            net.observers.append(rewrite)
         consumer = SdcConsumer(address, SdcV1Definitions, ssl_context_container=ccont, validate=True, components=comps,
                                force_ssl_connect=(consumer_mode == 'enforced'), epr=uuid.UUID(int=0x7000))
         consumer.start_all(shared_http_server=server)
@@ -102,6 +153,16 @@ def w_loopback(ctx: core.Ctx, arg):
                                 'a consumer with enforced TLS creates a SOAP client without its TLS client context for an endpoint on another '
                                 'host:port advertised with http', {**label, 'address': addr})
                     break
+        # hosted services are asked for their metadata through another name than the one the provider is bound to (alternative host name
+        # kept by a client, NAT, hosts entry): the addresses in the answer are scanned like everything else on the wire
+        ppt = world.provider_server.server_port
+        for e in [x for x in list(net.log) if x.body and b'mex/GetMetadata/Request' in x.body and x.netloc.endswith(f':{ppt}')][:8]:
+            for host in (f'localhost:{ppt}', f'device.example:{ppt}'):
+                try:
+                    net.transmit(e.netloc, 'POST', e.path, {**e.headers, 'Host': host}, e.raw_body, bypass_policy=True)
+                    ctx.count('loopback.getmetadata_with_foreign_host_header')
+                except Exception:  # noqa: BLE001
+                    ctx.count('loopback.getmetadata_with_foreign_host_header.failed')
         consumer.stop_all(unsubscribe=True)
         if consumer_mode == 'enforced' and provider_tls:
             # the consumer is started again, now against a peer whose TLS handshake fails: it must fail, never fall back to plaintext
@@ -384,12 +445,17 @@ def run(ctx: core.Ctx):
                     jobs.append(['w_loopback', {'provider_tls': provider_tls, 'consumer': consumer, 'async_mgr': async_mgr, 'alt_host': alt,
                                                 'sample': first and provider_tls}])
     jobs[12][1]['sample'] = True
+    for scheme in ('http', 'https'):
+        for async_mgr in (False, True):
+            jobs.append(['w_loopback', {'provider_tls': True, 'consumer': 'enforced', 'async_mgr': async_mgr, 'alt_host': False, 'offsite_wsdl': scheme}])
     jobs.append(['w_contexts', {}])
     jobs.append(['w_real_sockets', {}])
     core.fanout(ctx, MODULE, 'dispatch', jobs, timeout=600)
     ctx.exhaustive = True
     ctx.extra['exhaustive_part'] = 'the configuration space listed in rule; traffic per configuration is one scripted session'
     ctx.floor('loopback.urls_scanned', 200)
+    ctx.floor('loopback.getmetadata_with_foreign_host_header', 20)
+    ctx.floor('loopback.offsite_wsdl_locations_planted', 4)
     ctx.floor('loopback.connections_recorded', 30)
     ctx.floor('contexts.handshakes', 10)
     ctx.floor('real.tcp_connections', 2)
